@@ -703,7 +703,7 @@ Section Scanners.
     let m := pos_str start p in
     match buildInt T base m prefixed with
     | BI t z => ret (Some (TConstant m (line start) (col start) (KInt t z)))
-    | BI_invalid => ret None            (* catch (const std::invalid_argument &) { return false; } *)
+    | BI_invalid => set_pos start ;;; ret None     (* catch (const std::invalid_argument &) { m_position = start; return false; }  (fix 3bd5fe4) *)
     end.
   Definition Num : MM (option token) :=
     SkipWS false ;;;
@@ -721,6 +721,10 @@ Section Scanners.
                   let '(k, v) := buildFloat T m in
                   ret (Some (TConstant m (line start) (col start) (KFloat k v)))
                 else
+                  (* not a floating literal; Float_ may have stopped inside a malformed one (`1.5e+`, `.1e`): the integer is read again
+                     from the start, its digits and suffix only (fix 3bd5fe4) *)
+                  set_pos start ;;;
+                  skip_while (a_int A) ;;;
                   IntSuffix_ ;;;
                   p <- get_pos ;;
                   let m := pos_str start p in
